@@ -3133,9 +3133,20 @@ func (p *Posix) DeleteObject(ctx context.Context, input *s3.DeleteObjectInput) (
 					}, nil
 				}
 
-				srcObjVersion, err := ents[len(ents)-1].Info()
-				if err != nil {
-					return nil, fmt.Errorf("get file info: %w", err)
+				// The previous version is the one that was archived most
+				// recently. The directory is sorted by name: ULID version ids
+				// sort by creation time, but the null version has no time in
+				// its name, so pick by modification time (as the versions
+				// listing does), the later name winning ties.
+				var srcObjVersion fs.FileInfo
+				for _, ent := range ents {
+					fi, err := ent.Info()
+					if err != nil {
+						return nil, fmt.Errorf("get file info: %w", err)
+					}
+					if srcObjVersion == nil || !fi.ModTime().Before(srcObjVersion.ModTime()) {
+						srcObjVersion = fi
+					}
 				}
 				srcVersionId := srcObjVersion.Name()
 				sf, err := os.Open(filepath.Join(versionPath, srcVersionId))
@@ -3669,8 +3680,8 @@ func (p *Posix) HeadObject(ctx context.Context, input *s3.HeadObjectInput) (*s3.
 			return nil, fmt.Errorf("get obj versionId: %w", err)
 		}
 		if errors.Is(err, meta.ErrNoSuchKey) {
-			bucket = filepath.Join(p.versioningDir, bucket)
-			object = filepath.Join(genObjVersionKey(object), versionId)
+			// the current version has no version id attribute: it is the null version
+			vId = []byte(nullVersionId)
 		}
 
 		if string(vId) != versionId {
@@ -3920,6 +3931,18 @@ func (p *Posix) CopyObject(ctx context.Context, input s3response.CopyObjectInput
 	}
 	if !strings.HasSuffix(srcObject, "/") && fi.IsDir() {
 		return nil, s3err.GetAPIError(s3err.ErrNoSuchKey)
+	}
+
+	if p.versioningEnabled() {
+		// a delete marker keeps the file of the version it replaced:
+		// the key reads as missing, also as a copy source
+		isDelMarker, err := p.isObjDeleteMarker(srcBucket, srcObject)
+		if err != nil {
+			return nil, err
+		}
+		if isDelMarker {
+			return nil, s3err.GetAPIError(s3err.ErrNoSuchKey)
+		}
 	}
 
 	mdmap := make(map[string]string)
